@@ -29,7 +29,14 @@ pub enum Pair {
     Identical,
     /// opening j: blindings (r_0, r_1) vs (r_0 + d, r_1 - d) under G_0 = G_1: same commitment,
     /// identical public transcript, different witness
-    BlindingShift { j: usize },
+    BlindingShift {
+        j: usize,
+        /// the two blinding positions whose generators are merged (default 0 and 1)
+        #[serde(default)]
+        a: usize,
+        #[serde(default = "one")]
+        b: usize,
+    },
     /// opening j: (v, r_0) vs (v + 1, r_0 - 1) under H = G_0: same commitment, different value
     ValueTrade { j: usize },
     Context,
@@ -39,6 +46,10 @@ pub enum Pair {
     Commitment { j: usize },
     /// the statement is proved at a different bit length
     Bits,
+}
+
+fn one() -> usize {
+    1
 }
 
 #[derive(Clone, Debug, Serialize, Deserialize)]
@@ -58,11 +69,13 @@ struct Side {
     ctx: Context,
 }
 
-fn degenerate_pc(ext: usize, merge_g01: bool, h_is_g0: bool) -> PedersenGens<FreePoint> {
+fn degenerate_pc(ext: usize, merge: Option<(usize, usize)>, h_is_g0: bool) -> PedersenGens<FreePoint> {
     let mut pc = free_pedersen(ext);
-    if merge_g01 && ext >= 2 {
-        pc.g_base_vec[1] = pc.g_base_vec[0].clone();
-        pc.g_base_compressed_vec[1] = pc.g_base_compressed_vec[0];
+    if let Some((a, b)) = merge {
+        if a < ext && b < ext && a != b {
+            pc.g_base_vec[b] = pc.g_base_vec[a].clone();
+            pc.g_base_compressed_vec[b] = pc.g_base_compressed_vec[a];
+        }
     }
     if h_is_g0 {
         pc.h_base = pc.g_base_vec[0].clone();
@@ -110,20 +123,22 @@ fn sides(sc: &Scenario) -> Option<(Side, Side)> {
             build_side(cfg, w, &sc.ctx, free_pedersen(cfg.ext), none),
             build_side(cfg, w, &sc.ctx, free_pedersen(cfg.ext), none),
         )),
-        Pair::BlindingShift { j } => {
+        Pair::BlindingShift { j, a, b } => {
             if cfg.ext < 2 {
                 return None;
             }
+            let (ka, kb) = (*a % cfg.ext, *b % cfg.ext);
+            let (ka, kb) = if ka == kb { (0, 1) } else { (ka, kb) };
             let jj = *j % cfg.m;
             let delta = scalar_from_seed("c14delta", w.blind_seed, 1);
-            let a = build_side(cfg, w, &sc.ctx, degenerate_pc(cfg.ext, true, false), none);
-            let b = build_side(cfg, w, &sc.ctx, degenerate_pc(cfg.ext, true, false), move |j, _v, r| {
+            let sa = build_side(cfg, w, &sc.ctx, degenerate_pc(cfg.ext, Some((ka, kb)), false), none);
+            let sb = build_side(cfg, w, &sc.ctx, degenerate_pc(cfg.ext, Some((ka, kb)), false), move |j, _v, r| {
                 if j == jj {
-                    r[0] += delta;
-                    r[1] -= delta;
+                    r[ka] += delta;
+                    r[kb] -= delta;
                 }
             });
-            Some((a, b))
+            Some((sa, sb))
         },
         Pair::ValueTrade { j } => {
             let jj = *j % cfg.m;
@@ -132,8 +147,8 @@ fn sides(sc: &Scenario) -> Option<(Side, Side)> {
             if w.values[jj] >= max {
                 return None;
             }
-            let a = build_side(cfg, w, &sc.ctx, degenerate_pc(cfg.ext, false, true), none);
-            let b = build_side(cfg, w, &sc.ctx, degenerate_pc(cfg.ext, false, true), move |j, v, r| {
+            let a = build_side(cfg, w, &sc.ctx, degenerate_pc(cfg.ext, None, true), none);
+            let b = build_side(cfg, w, &sc.ctx, degenerate_pc(cfg.ext, None, true), move |j, v, r| {
                 if j == jj {
                     *v += 1;
                     r[0] -= Scalar::ONE;
@@ -349,8 +364,10 @@ fn execute(sc: &Scenario, st: &mut RunStats) -> Vec<Violation> {
     } else {
         st.probe("unseeded");
     }
-    // both runs really received the same stream
-    if obs[0].rng_blocks.iter().zip(obs[1].rng_blocks.iter()).any(|(a, b)| a != b) {
+    // both runs really were served the same stream by the simulator (what the library then does
+    // with it is its business)
+    let n = obs[0].served.len().min(obs[1].served.len());
+    if obs[0].served[..n] != obs[1].served[..n] {
         out.push(Violation::new("harness:streams_differ", "setup", "paired runs were not served the same stream".to_string()));
         return out;
     }
@@ -503,7 +520,15 @@ impl Check for C14 {
         let j = rng.usize_below(cfg.m);
         let pair = match pair_sel {
             0 => Pair::Identical,
-            1 => Pair::BlindingShift { j },
+            1 => {
+                // any two blinding positions, biased to include the last one; opening biased to the last
+                let a = rng.usize_below(cfg.ext);
+                let mut b = if rng.chance(1, 2) { cfg.ext - 1 } else { rng.usize_below(cfg.ext) };
+                if b == a {
+                    b = (a + 1) % cfg.ext;
+                }
+                Pair::BlindingShift { j: if rng.chance(1, 2) { cfg.m - 1 } else { j }, a, b }
+            },
             2 => {
                 // keep v + 1 in range, and v + 1 - promise < 2^bits
                 if wit.values[j] >= max {
@@ -598,7 +623,7 @@ impl Check for C14 {
             "pair_identical", "pair_blinding_shift_same_commitment", "pair_value_trade_same_commitment", "pair_context",
             "pair_promise", "pair_commitment", "pair_bits", "seeded", "unseeded", "same_commitment_different_witness",
             "rng_all_zero", "rng_all_ones", "rng_constant_byte", "rng_short_period", "rng_counter", "rng_stuck_after",
-            "rng_replay", "public_candidates_tried",
+            "rng_replay", "rng_zero_block_at", "rng_repeat_block_at", "public_candidates_tried",
         ]
     }
 }
